@@ -26,13 +26,14 @@ ASSUME H!IdToZxyBits(H!FirstInvalid).ok = FALSE /\ H!IdToZxyBits(U!Max).ok = FAL
 ASSUME H!IdToZxyBits(U!Pred(H!FirstInvalid)).z = 31
 
 VARIABLE p
-Init == \E z \in 0..MaxZ : \E x \in 0..(H!Pow2(z) - 1) : \E y \in 0..(H!Pow2(z) - 1) : p = <<z, x, y>>
-Next == UNCHANGED p
+\* two stages so that TLC's workers share the enumeration: Init fixes (z, x), Next picks y
+Init == \E z \in 0..MaxZ : \E x \in 0..(H!Pow2(z) - 1) : p = <<z, x, -1>>
+Next == p[3] = -1 /\ \E y \in 0..(H!Pow2(p[1]) - 1) : p' = <<p[1], p[2], y>>
 Spec == Init /\ [][Next]_p
 
 Abs(v) == IF v < 0 THEN -v ELSE v
 
-Theorems ==
+Theorems == p[3] >= 0 =>
   LET z == p[1]  x == p[2]  y == p[3]
       d   == H!TrDigits(z, x, y)
       id  == H!ZxyToId(z, x, y)
